@@ -332,7 +332,7 @@ pub fn draw_universe(rng: &mut Rng, sw: &Swarm, n_syn: usize) -> Universe {
         if !sw.escapes {
             hs.retain(|h| !(corpus::L0_..=corpus::L4_).contains(h));
         }
-        hs.retain(|h| *h < corpus::VEC_A0);
+        hs.retain(|h| !(corpus::VEC_A0..corpus::AUTO2_FROM).contains(h));
         if !sw.unit_as {
             // `as` on a unit variant (known finding F7) only when the run opts in
             hs.retain(|h| *h != corpus::W3_);
